@@ -20,7 +20,8 @@ RULE = (
     "(exponentially many paths), generated dense kernels (instructions reading and writing two registers) and "
     "ordinary kernels; timeouts {0, 1, 2, generous, -1}; worker completion placed clearly before the deadline "
     "(>=0.5 s), clearly after it (>=1 s), and 0.10-0.15 s before it (inside the last polling interval); plus CLI "
-    "runs on the long-LCD kernel. Oracle: wall time <= timeout + 10 s, and on explosive kernels the time beyond the requested timeout differs by at "
+    "runs on the long-LCD kernel. Oracle: wall time <= timeout + 10 s, a worker held back until >= 1.5 s after the deadline never completes "
+    "(placement 'staggered': workers due at 0.7 T, 1.6 T, 2.5 T), and on explosive kernels the time beyond the requested timeout differs by at "
     "most 4 s between timeout 0 and timeout 1 or 2 (measured twice before it counts); timed_out / footer warning <=> at least one "
     "chunk did not record completion; every reported dependency is a cycle of the untimed result with the same "
     "latency (where the untimed search finishes); port pressure totals and critical path equal the untimed run's; "
@@ -223,6 +224,14 @@ def check_case(case):
         raise Violation("overrun:" + tag, "analysis returned %.1f s after start with timeout %s" % (obs["wall"], to),
                         obs["wall"], to + 10)
     unfinished = [c for c in obs["chunks"] if c not in obs["done"]]
+    if to > 0:
+        for c, d in zip(obs["chunks"], case["delays"]):
+            # the time-out is a deadline for the whole search, not the longest pause between two workers finishing
+            if d >= to + 1.5 and c in obs["done"]:
+                raise Violation("deadline-not-enforced:" + tag, "the worker of chunk %s, held back until %.1f s after "
+                                "start, finished its search although the time-out was %s s (completion times %s)" % (
+                                    c, d, to, {k_: round(v_, 2) for k_, v_ in obs["done"].items()}),
+                                round(obs["done"][c], 2), "killed at about %s s" % to)
     # stalled machine? injected schedule vs. recorded completion (only meaningful for non-explosive kernels)
     if case["label"] == "ordinary":
         for c, d in zip(obs["chunks"], case["delays"]):
@@ -310,6 +319,9 @@ def scenario_list(tier, seed):
             delays = [0.0] * (k - 1) + [timeout + 1.2]
         elif placement == "boundary":
             delays = [0.0] * (k - 1) + [timeout - 0.12]
+        elif placement == "staggered":
+            # workers finishing one after the other, each less than a time-out apart: 0.7 T, 1.6 T, 2.5 T, ...
+            delays = [timeout * (0.7 + 0.9 * i) for i in range(k)]
         else:
             delays = [0.0] * k
         out.append({"kind": "sched", "label": label, "arch": arch, "lines": lines, "timeout": timeout, "ncpu": ncpu,
@@ -320,6 +332,8 @@ def scenario_list(tier, seed):
         for pl in ("before", "after", "boundary"):
             add("ordinary", "zen2", ordx, to, 3, pl)
             add("ordinary", "tx2", orda, to, 2, pl)
+    add("ordinary", "zen2", ordx, 2, 3, "staggered")
+    add("ordinary", "tx2", orda, 2, 3, "staggered")
     add("ordinary", "zen2", ordx, -1, 3, "none")
     add("ordinary", "zen2", ordx, 0, 3, "none")
     add("ordinary", "tx2", orda, 5, 5, "none")
